@@ -66,7 +66,7 @@ func runProxy(commandPrefix string, cmdBuilder func(temp string, needBash bool) 
 	var command, input string
 	commandPrefix += ` --no-force-tty-in --proxy-script "$0"`
 	if opts.Input == nil && (opts.ForceTtyIn || util.IsTty(os.Stdin)) {
-		command = fmt.Sprintf(`%s > %q`, commandPrefix, output)
+		command = fmt.Sprintf(`%s > %s`, commandPrefix, escapeSingleQuote(output))
 	} else {
 		input, err = fifo("proxy-input")
 		if err != nil {
@@ -87,10 +87,10 @@ func runProxy(commandPrefix string, cmdBuilder func(temp string, needBash bool) 
 		}()
 
 		if withExports {
-			command = fmt.Sprintf(`%s < %q > %q`, commandPrefix, input, output)
+			command = fmt.Sprintf(`%s < %s > %s`, commandPrefix, escapeSingleQuote(input), escapeSingleQuote(output))
 		} else {
 			// For mintty: cannot directly read named pipe from Go code
-			command = fmt.Sprintf(`command cat %q | %s > %q`, input, commandPrefix, output)
+			command = fmt.Sprintf(`command cat %s | %s > %s`, escapeSingleQuote(input), commandPrefix, escapeSingleQuote(output))
 		}
 	}
 
